@@ -441,6 +441,20 @@ class DimEval:
         """[(return stmt, unit)]"""
         return [(n.stmt, self.unit(n.stmt.value, n)) for n in self.fv.return_nodes() if n.stmt.value is not None]
 
+    def visit_tests(self):
+        """evaluate every branch condition of the function so that unit mismatches inside guards are reported too"""
+        for n in self.fv.cfg.nodes:
+            t = None
+            if n.kind == "test":
+                t = n.stmt.test if isinstance(n.stmt, (ast.If, ast.While)) else n.stmt
+            elif isinstance(n.stmt, ast.Assert):
+                t = n.stmt.test
+            if t is not None:
+                try:
+                    self._unit(t, n)
+                except RecursionError:  # pragma: no cover
+                    pass
+
     # ------------------------------------------------------------------ checks
     def additive(self, a, b, node, what="addition"):
         if isinstance(a, Unit) and isinstance(b, Unit) and not a.same(b):
@@ -659,6 +673,23 @@ class DimEval:
             for a in args:
                 self._unit(a, at)
             return self.method_units[n.func.attr]
+        if name in ("numpy.isclose", "numpy.allclose", "math.isclose") and len(args) >= 2:
+            a, b = (self.as_unit(self._unit(x, at)) for x in args[:2])
+            self.additive(a, b, n, "tolerance comparison")
+            tol_kw = "abs_tol" if name.startswith("math.") else "atol"
+            atol = [k.value for k in n.keywords if k.arg == tol_kw] or ([args[3]] if len(args) > 3 and not name.startswith("math.") else [])
+            explicit_zero = bool(atol) and isinstance(atol[0], ast.Constant) and atol[0].value == 0
+            implicit_abs = not name.startswith("math.") or bool(atol)
+            for u in (a, b):
+                if isinstance(u, Unit) and not u.is_one() and implicit_abs and not explicit_zero:
+                    if atol:
+                        tu = self.as_unit(self._unit(atol[0], at))
+                        if isinstance(tu, Unit) and tu.same(u):
+                            break
+                    self.report("DIM", n, f"`{U(n)[:80]}` compares a quantity of unit {u.show()} within an *absolute* tolerance (a pure number, {'1e-8 by default' if not atol else U(atol[0])}): "
+                                "the outcome changes when the field is multiplied by a constant or the grid is rescaled")
+                    break
+            return ONE
         if name in ("numpy.sqrt", "math.sqrt"):
             u = self.as_unit(self._unit(args[0], at)) if args else None
             return u.pow(Fraction(1, 2)) if isinstance(u, Unit) else u
